@@ -4,6 +4,7 @@ C06 — a wake-up for a suspended future operation is never lost.
 import DesyncModel.Spec
 import DesyncModel.Tables.Push
 import DesyncModel.Tables.Wake
+import DesyncModel.Inv.ParkReach
 
 namespace Desync.C06
 open Desync Gen
@@ -38,5 +39,25 @@ theorem latch :
   ⟨latch_spec.1, latch_spec.2.2.2.2.1, latch_spec.2.2.2.1⟩
 
 theorem stale_queue_waker_harmless : wakeQueue .waitingForUnpark = (.waitingForUnpark, false) := wakeQueue_leaves_unpark
+
+/-! ### the "thread inside sync" context -/
+
+/-- **I_park.**  In every reachable state a queue in the `WaitingForUnpark` state has a sync caller in the park loop of
+`run_one_job_now` for that queue: the state is written only by the caller that then parks, and the caller leaves the loop only
+once the state has been taken out of `WaitingForUnpark` — which only `WakeThread::wake` does (`wake_parked`:
+`wakeThread .waitingForUnpark = .running`, followed by the unpark).  So the wake-up of an operation suspended under a thread
+inside `sync` finds that thread there, and the thread then sees `Running` and polls the operation again
+(`parkCheck .running = .continue`). -/
+theorem parked_caller_is_in_its_park_loop {s : State} (hr : Reachable s) {q : Nat} {v : JobQ} (hv : s.qs[q]? = some v)
+    (hst : v.state = .waitingForUnpark) : ∃ a, (s.pcAt a).parks q = true :=
+  (parkInv_reachable hr).park q (by rw [qSt_of hv, hst])
+
+/-- only `run_one_job_now`, when it is about to park, writes `WaitingForUnpark`; only `WakeThread::wake` takes a queue out of it
+(every other table leaves the state alone) -/
+theorem only_the_parking_caller_writes_waitingForUnpark (st : QState) :
+    ((runOnePending st).1 = .waitingForUnpark → st = .waitingForUnpark ∨ (runOnePending st).2 = .park) ∧
+    ((wakeQueue st).1 = .waitingForUnpark → st = .waitingForUnpark) ∧ ((drainPending st).1 = .waitingForUnpark → st = .waitingForUnpark) ∧
+    (wakeQueue .waitingForUnpark).1 = .waitingForUnpark ∧ wakeThread .waitingForUnpark = .running :=
+  ⟨runOnePending_wfu, wakeQueue_wfu, drainPending_wfu, rfl, rfl⟩
 
 end Desync.C06
